@@ -247,6 +247,24 @@ func properties() map[string]*PropertySpec {
 				Bound: "2..3 concurrent handlers x 2 frames each, plain or after a StartTLS upgrade; spawn-order schedules + <= 1 preemption at a synchronisation point; per trace the partial-order queries: can two bufio calls of different goroutines coincide? can a foreign bufio call fall between a Write and its Flush?"},
 			nat("H_C05_step", "step", "one Write from an empty buffer and a free lock, write succeeds or fails, strings < 24 bytes", ""),
 		}})
+	poRaces := func(p *PathResult, po *PO) []POFinding {
+		races, _ := po.Races(nil)
+		var out []POFinding
+		for _, r := range races {
+			a, b := po.ev[r.A], po.ev[r.B]
+			out = append(out, POFinding{Key: "race:" + r.Loc, Detail: fmt.Sprintf("%s of %s (thread %d) and %s (thread %d) are not ordered by happens-before", a.Kind, r.Loc, a.Tid, b.Kind, b.Tid), Order: po.Describe(r.Order)})
+		}
+		return out
+	}
+	add(&PropertySpec{ID: "C15",
+		Functions: "all functions reached by the C05-C13 workloads: (*Server).{Run,Stop,Ready,Router}, Run$1, (*conn).{serveRequests,readRequest,readPacket,initConn,close}, serveRequests$1, (*Mux).serve, (*ResponseWriter).Write, (*Request).StartTLS; testdirectory: handleBind/SearchUsers/Add/Modify/Delete closures, Set*/getters",
+		Outside:   []string{"the tracked locations are the fields of Server, Mux, conn and Directory (nested structs included, not followed through pointers into entries/slices); library objects (bufio, bytes.Buffer) are covered by C05's bufio queries", "generalisation is over all reorderings of the explored traces that keep each thread's observations, not over workloads beyond 2 connections x <= 4 requests / one served operation x one admin call", "WaitGroup reuse (connWg.Add concurrent with Wait from zero) is a documented-misuse pattern outside the field-level race model", "routes registered after Run"},
+		Harnesses: []HarnessSpec{
+			{Name: "H_C15_server", Reach: []string{"workload"}, PO: poRaces, Bound: "2 connections, pipelined requests with concurrent writes, optional StartTLS upgrade, 2 Ready pollers, early and final Stop, spawn-order schedules; per trace every conflicting pair of tracked accesses is a race query (can the two clocks coincide?)"},
+			{Name: "H_TD_C15_directory", Pkg: "testdirectory", Reach: []string{"directory workload"}, PO: poRaces,
+				Tweak: func(c *HarnessCfg, tier string) { c.ExtraPkgs["golang.org/x/exp/slices"] = true },
+				Bound: "one served operation (bind, user search, add, modify, delete) concurrently with one of the 8 Set*/getter calls"},
+		}})
 	add(&PropertySpec{ID: "C02",
 		Functions: "(*conn).readRequest, (*conn).readPacket, newRequest, newMessage, (*packet).{basicValidation,requestPacket,requestType,requestMessageID,simpleBindParameters,searchParmeters,modifyParameters,addParameters,deleteParameters,extendedOperationName,controlPacket,assert,assertApplicationRequest}, decodeControl, decodeAttribute, NewControl*",
 		Outside:   []string{"byte-level framing (length octets, truncation, EOC, oversize): the asn1-ber reader's error outcome by contract (DESIGN §5.1)", "panics inside asn1-ber's reader and go-ldap's DecompileFilter (it recovers)", "universal REAL and GeneralizedTime payloads (opaque values)", "trees deeper than 5 below the envelope or wider than the stated widths"},
